@@ -1,7 +1,7 @@
 #!/bin/bash
 # build.sh <group> <scratch>: instrument /repo's current tree and build harness <group> to <scratch>/h
 set -eu
-VERIF=${VERIF_DIR:-$(cd "$(dirname "$0")" && pwd)}
+VERIF=$(cd "$(dirname "$0")" && pwd)
 REPO=${VERIF_REPO:-/repo}
 export GOFLAGS=-mod=mod GOPROXY=off GOSUMDB=off GOTOOLCHAIN=local
 GROUP=$1; OUT=$2
